@@ -415,6 +415,41 @@ def h_qpe_reuse(env, fam, k, m):
                          f"QPE[{fam}] with a shared TrotterSuzukiUnitary object, register of {kk} qubits: probability of outcome {bits} for phase {m}/2^{k}")
 
 
+def h_qft_structure(env, n, swap):
+    """registers too long for a state-level comparison (enumerated, structural): the circuit of get_qft_circuit on n qubits
+    holds one H per qubit, exactly one controlled phase per qubit pair with |angle| = pi/2^d for list distance d (none dropped,
+    however small), n//2 swaps iff requested; the inverse option gives the reversed gate list with negated angles"""
+    import math
+    from symx import shim
+    from tangelo.toolboxes.ansatz_generator.ansatz_utils import get_qft_circuit
+    qs = list(range(n))
+    with shim.concrete_mode():
+        fwd = get_qft_circuit(qs, inverse=False, swap=swap)
+        inv = get_qft_circuit(qs, inverse=True, swap=swap)
+    names = [g.name for g in fwd._gates]
+    env.check_same(names.count("H"), n, f"QFT on {n} qubits: one H per qubit")
+    env.check_same(names.count("SWAP"), (n // 2 if swap else 0), f"QFT on {n} qubits: number of swaps")
+    pairs = {}
+    for g in fwd._gates:
+        if g.name == "CPHASE":
+            key = tuple(sorted((g.target[0], g.control[0])))
+            pairs.setdefault(key, []).append(float(g.parameter))
+    want = {(i, j) for i in range(n) for j in range(i + 1, n)}
+    env.check_same(sorted(pairs), sorted(want), f"QFT on {n} qubits: exactly one controlled phase for every qubit pair (none dropped)")
+    bad = [(k, v) for k, v in pairs.items() if len(v) != 1 or abs(abs(v[0]) - math.pi / 2 ** (k[1] - k[0])) > 1e-15 * math.pi]
+    env.check_true(not bad, f"QFT on {n} qubits: |angle| of the pair (i, j) is pi/2^(j-i)", detail=str(bad[:3]))
+    sig = lambda c: [(g.name, tuple(g.target), tuple(g.control or ()), (round(float(g.parameter), 15) if g.name == "CPHASE" else None)) for g in c._gates]  # noqa
+    neg = [(a, b, c_, (-p if p is not None else None)) for a, b, c_, p in reversed(sig(fwd))]
+    rot = lambda L: [x for x in L if x[0] != "SWAP"]  # noqa
+    swp = lambda L: sorted(tuple(sorted(x[1])) for x in L if x[0] == "SWAP")  # noqa
+    got = sig(inv)
+    env.check_same(rot(got), rot(neg), f"QFT on {n} qubits: inverse=True has the reversed rotation list with negated angles")
+    env.check_same(swp(got), swp(neg), f"QFT on {n} qubits: inverse=True has the same (mutually commuting) swaps")
+    n_sw = len(swp(got))
+    env.check_true(all(x[0] == "SWAP" for x in got[:n_sw]) and all(x[0] == "SWAP" for x in sig(fwd)[len(sig(fwd)) - n_sw:]),
+                   "swaps come last in the forward and first in the inverse circuit")
+
+
 def h_sv_order_keyword(env):
     """order keywords other than the two documented spellings: refused, or honoured with the meaning of their lower-case form"""
     from tangelo.linq.helpers.circuits.statevector import StateVector
@@ -631,6 +666,9 @@ def shapes(tier, seed):
     for m in (1, 2, 3) + ((4,) if T else ()):
         out.append(Shape(f"qft/int/{m}", h_qft, dict(n=m + 1, qlist=tuple(range(m)), inverse=False, swap=True, give_n=False, as_int=True),
                          modules=MODS, group="qft"))
+    for n_ in (8, 13, 16) + ((24,) if T else ()):
+        for sw in (True, False):
+            out.append(Shape(f"qft/structure/n{n_}/swap={int(sw)}", h_qft_structure, dict(n=n_, swap=sw), modules=()))
     out.append(Shape("canary/qft/order", h_qft, dict(n=3, qlist=(0, 2), inverse=False, swap=True, give_n=True, canary=True),
                      modules=MODS, canary=True, group="canary"))
     out.append(Shape("canary/qft/sign", h_qft, dict(n=2, qlist=(1,), inverse=True, swap=False, give_n=False, canary=True),
